@@ -121,7 +121,8 @@ func genC07(t *rapid.T) c07Case {
 		maxDepth = 8
 	}
 	g := &fgen{t: t, maxAtoms: 8, maxDepth: rapid.IntRange(1, maxDepth).Draw(t, "depth"), maxWidth: 3, budget: 10, quant: true, edges: 3}
-	p := &m.Profile{Name: pick(t, []string{"c07", "Profile 7", "a-b_c"}, "pname")}
+	// the package name of the policy is derived from the profile name: a name the translator invents
+	p := &m.Profile{Name: pick(t, []string{"c07", "Profile 7", "a-b_c", "9 lives", "Perfil de validación", "プロファイル", "--", "Ünïcode-Ærøå", "data", "input", "package", "default"}, "pname")}
 	nv := rapid.IntRange(1, 8).Draw(t, "validations")
 	classes := []string{"ex.Test", "ex.Other", "shapes.NodeShape", "apiContract.WebAPI", "core.Thing", "doc.Document"}
 	c := c07Case{Family: "random"}
